@@ -21,6 +21,13 @@ Proof. unfold Qltb. rewrite negb_true_iff. apply Qleb_false. Qed.
 Lemma Qltb_false x y : Qltb x y = false <-> y <= x.
 Proof. unfold Qltb. rewrite negb_false_iff. apply Qleb_true. Qed.
 
+(* on numbers (no NaN in this model)  not x < y  is  x >= y *)
+Lemma py_not_lt_ge x y : py_not_lt x y = py_ge x y.
+Proof.
+  unfold py_not_lt, py_lt, py_ge, py_le. destruct (qof x) as [a|]; destruct (qof y) as [b|]; try reflexivity.
+  unfold Qltb, Qleb. rewrite negb_involutive. reflexivity.
+Qed.
+
 Lemma Qeqb_true x y : Qeqb x y = true <-> x == y.
 Proof. unfold Qeqb. apply Qeq_bool_iff. Qed.
 
